@@ -63,7 +63,11 @@ def rand_soft(rng, seq, role="constraint", allow=None):
         return dict(kind="hairpin", stem=rng.choice([3, 4]), window=rng.choice([8, 10, 14]),
                     location=None if whole else rand_loc(rng, n, 8, strands=(1, 0)))
     if k == "keep_edits":
-        return dict(kind="keep_edits", max_edits=rng.randint(1, 3), location=None if whole else rand_loc(rng, n, 3, strands=(1, 0)))
+        d = dict(kind="keep_edits", max_edits=rng.randint(1, 3), location=None if whole else rand_loc(rng, n, 3, strands=(1, 0)))
+        if rng.random() < 0.25:
+            del d["max_edits"]
+            d["max_edits_percent"] = rng.choice([2, 10, 25, 50])
+        return d
     if k == "length":
         return dict(kind="length", min_length=rng.choice([0, n - 2, n, n + 1]), max_length=rng.choice([None, n, n + 3, n - 1]))
     if k == "user":
@@ -210,6 +214,8 @@ def build_spec(d):
     if k == "hairpin":
         return dc.AvoidHairpins(stem_size=d["stem"], hairpin_window=d["window"], location=loc)
     if k == "keep_edits":
+        if d.get("max_edits_percent") is not None:
+            return dc.AvoidChanges(max_edits_percent=d["max_edits_percent"], location=loc)
         return dc.AvoidChanges(max_edits=d["max_edits"], location=loc)
     if k == "length":
         return dc.SequenceLengthBounds(d["min_length"], d["max_length"])
